@@ -392,3 +392,36 @@ class LazyFieldLoop(Contract):
 R.add(LazyFieldLoop)
 from .base import exc                   # noqa: E402
 C12_FUNCS.append('do_realize_lazy_struct_lock_held#field-loop')
+class RealizeGlobalIntFlags(Contract):
+    """realize_global_int over the trace of the getter call (this file's model of g->address): flags 0/1 give the exact
+    integer the getter delivered, a getter that flagged a disagreement with the cdef (bit 1) gives ffi.error"""
+    name = 'realize_global_int'
+
+    def pre(self, c):
+        return [('builder-valid', c.valid(c['builder'], 120)), ('no-pending-exception', c.old.err == 0)]
+
+    def frame(self, c):
+        return Frame(err=True, all_fields=True, all_raw=True, trace=['tmp:getter:calls', 'tmp:getter:flags', 'tmp:getter:value'])
+
+    def witness(self, c):
+        return {}
+
+    def post(self, c):
+        from .base import is_long, int_w, zx, sx
+        st0, st1 = c.old, c.new
+        neg = st1.gvar('tmp:getter:flags', B32)
+        value = st1.gvar('tmp:getter:value', B64)
+        r = c.result
+        ffierr = c.global_value(st1, 'FFIError')
+        return [('the getter of the constant is called exactly once', getter_calls(st1) == getter_calls(st0) + 1),
+                ('flags 0: the unsigned value the getter delivered', z3.Implies(neg == 0, z3.And(r != 0, is_long(c, st1, r), int_w(r) == zx(value)))),
+                ('flags 1: that value as a signed 64-bit number', z3.Implies(neg == 1, z3.And(r != 0, is_long(c, st1, r), int_w(r) == sx(value)))),
+                ('a getter that flagged a disagreement with the cdef: ffi.error, no value',
+                 z3.Implies(z3.And(neg != 0, neg != 1), z3.And(r == 0, st1.err == ffierr)))]
+
+
+R.contracts['realize_global_int'] = RealizeGlobalIntFlags()
+# contracts that live in other files (cdl.py: C11's realize_global_int; layout.py: C01's detect_custom_layout and the
+# API-mode instances of the struct-completion function) and carry clauses (2) and (3) of this property
+C12_FUNCS += ['realize_global_int', 'detect_custom_layout', 'b_complete_struct_or_union_lock_held#checked',
+              'b_complete_struct_or_union_lock_held#checked-field']
